@@ -132,6 +132,7 @@ type c15Flags struct {
 	dupKey        bool // the same (client, seq) accepted twice
 	wokenPending  bool // a Get that was blocked returned after a later Add
 	afterBlocked  bool // a Get returned a batch after an earlier Get had blocked
+	gaveUpReady   bool // a request whose context was already done arrived while a full fresh batch was present
 	batches       int
 }
 
@@ -152,6 +153,7 @@ func (f c15Flags) classes() []string {
 	add(f.dupKey, "same-key-twice")
 	add(f.wokenPending, "pending-get-woken")
 	add(f.afterBlocked, "batch-after-blocked-get")
+	add(f.gaveUpReady, "given-up-request-while-batch-ready")
 	add(f.batches >= 2, "batches>=2")
 	add(f.batches == 0, "no-batch")
 	return cl
@@ -384,6 +386,31 @@ func (r *c15Run) get() *common.Result {
 	return nil
 }
 
+// cancelledGet issues a request whose context is already done (a caller that has given up, e.g. a proposer whose view
+// ended just as the batch filled). It may report the context's error or - when a full fresh batch is present - hand that
+// batch out; the statement allows both. What it must not do is disturb the cache: the following requests are judged by the
+// model as usual, so a wake-up swallowed here shows as a blocked Get later.
+func (r *c15Run) cancelledGet() *common.Result {
+	if f := r.cancelPending(); f != nil {
+		return f
+	}
+	want, examined := r.modelNext()
+	if want != nil {
+		r.fl.gaveUpReady = true
+	}
+	ctx, cancel := context.WithCancel(context.Background())
+	cancel()
+	b, err := r.cache.Get(ctx)
+	if err == nil {
+		r.observeAtGet()
+		return r.accept(b, want, examined)
+	}
+	if b != nil || !errors.Is(err, context.Canceled) {
+		return r.fail("get-error", "a Get whose context was already cancelled returned (%v, %v), want (nil, context.Canceled) or a batch", b, err)
+	}
+	return nil
+}
+
 // settle decides, once every other goroutine is durably blocked, whether the pending Get had to return by now.
 func (r *c15Run) settle() *common.Result {
 	p := r.pend
@@ -469,6 +496,8 @@ func c15RunSeq(batch int, pending bool, ops []c15Op) (common.Result, c15Flags) {
 			f = r.settle()
 		case "get":
 			f = r.get()
+		case "cget":
+			f = r.cancelledGet()
 		}
 		if f != nil {
 			return *f, r.fl
@@ -539,7 +568,7 @@ func c15GenSeqCase(rt *rapid.T) c15SeqCase {
 	clients := rapid.IntRange(1, c15MaxClientID).Draw(rt, "clients")
 	clientLike := rapid.Bool().Draw(rt, "style") // clients number their commands 1,2,3,... and sometimes resend
 	next := make([]int, clients+1)
-	kinds := []string{"add", "add", "add", "add", "add", "add", "add", "add", "add", "get", "get", "get", "get", "prop", "prop", "pgot"}
+	kinds := []string{"add", "add", "add", "add", "add", "add", "add", "add", "add", "get", "get", "get", "get", "prop", "prop", "pgot", "cget"}
 	n := rapid.IntRange(0, 60).Draw(rt, "n")
 	for i := 0; i < n; i++ {
 		op := c15Op{K: rapid.SampledFrom(kinds).Draw(rt, "kind")}
